@@ -128,6 +128,11 @@ def run_routes(case: dict) -> dict:
         for wf in case["workflows"]:
             runs = wf["runs"]
             copies = runs + [rng.choice(runs) for _ in range(rng.randint(0, 3))]
+            if rng.random() < 0.4:
+                # a trace that is a lone root span (the call returned before doing anything):
+                # a one-event job next to the full ones
+                copies.append([rng.choice(runs)[-1]])
+                out["lone_root_span_traces"] = out.get("lone_root_span_traces", 0) + 1
             rng.shuffle(copies)
             expected_jobs[wf["name"]] = []
             for r in copies:
@@ -436,7 +441,7 @@ def main(tier: str, seed: int) -> int:
            "jobs_handed_to_learner_compared": 0,
            "events_compared_saved_vs_memory": 0, "pv_jobs_match_generator": 0,
            "diagram_equivalent_to_source_definition": 0, "diagram_not_equivalent_to_source": 0,
-           "route_a_failed": 0}
+           "route_a_failed": 0, "lone_root_span_traces": 0}
     for r in results:
         c = cases[r["_idx"]]
         if r.get("status") != "ok":
@@ -449,6 +454,7 @@ def main(tier: str, seed: int) -> int:
         obs["events_compared_saved_vs_memory"] += r.get("events_in_memory", 0)
         obs["pv_jobs_match_generator"] += 1 if r.get("pv_jobs_match_generator") else 0
         obs["route_a_failed"] += 1 if r.get("route_a_failed") else 0
+        obs["lone_root_span_traces"] += r.get("lone_root_span_traces", 0)
         chk.case(core.digest(c["rng_seed"]), True)
         for wfn, info in r["workflows"].items():
             if info.get("both_fail"):
